@@ -525,7 +525,8 @@ def instances(dt_name: str, workdir: Path):
     add('polarizer-create-0d-angle-reduced', lambda: (LinearPolarizerOperator.create((4,), dt, 'IQU', angles=half()).reduce(), stokes_x('IQU', (4,))), exact=False)
     for method in SymmetricBandToeplitzOperator.METHODS:
         inexact = method in ('fft', 'overlap_save')
-        add(f'toeplitz-{method}-int-band', lambda method=method: (SymmetricBandToeplitzOperator(i32(4, 2, 1), S((9,), dt), method=method), ints((9,), dt, 2, 11)), exact=not inexact)
+        # (an integer band makes the FFT methods transform in single precision whatever the input dtype: float32 tolerance)
+        add(f'toeplitz-{method}-int-band', lambda method=method: (SymmetricBandToeplitzOperator(i32(4, 2, 1), S((9,), dt), method=method), ints((9,), dt, 2, 11)), exact=not inexact, tol=2e-5 if inexact else None)
         add(f'toeplitz-{method}-1elem-band', lambda method=method: (SymmetricBandToeplitzOperator(jnp.asarray([4.0], dtype=dt), S((9,), dt), method=method), ints((9,), dt, 2, 11)), exact=not inexact)
         add(f'toeplitz-{method}-one-row-batch', lambda method=method: (SymmetricBandToeplitzOperator(jnp.asarray([[4.0, 1.0]], dtype=dt), S((2, 9), dt), method=method), ints((2, 9), dt, 2, 11)), exact=not inexact)
 
